@@ -68,8 +68,8 @@ impl SubCheck for CodecRoundTrip {
         let port = prop_oneof![3 => any::<u16>(), 1 => proptest::sample::select(vec![0u16, 80, 443, 65535])];
         let name = (1usize..=255, 0u8..2, any::<u64>()).prop_map(|(n, k, s)| name_bytes(n, k, s));
         let addr = prop_oneof![
-            2 => (any::<[u8; 4]>(), port.clone()).prop_map(|(a, p)| Addr::V4(a, p)),
-            2 => (any::<[u8; 16]>(), port.clone()).prop_map(|(a, p)| Addr::V6(a, p)),
+            2 => (any::<u64>(), port.clone()).prop_map(|(a, p)| Addr::V4(gen::v4_from(a), p)),
+            3 => (any::<u64>(), port.clone()).prop_map(|(a, p)| Addr::V6(gen::v6_from(a), p)),
             5 => (name, port).prop_map(|(n, p)| Addr::Name(n, p)),
         ];
         (addr, proptest::collection::vec(any::<u8>(), 0..40)).prop_map(|(addr, tail)| RtCase { addr, tail }).boxed()
@@ -193,7 +193,7 @@ impl SubCheck for AcceptedTransmission {
     fn strategy(&self, _tier: Tier) -> BoxedStrategy<AcceptCase> {
         let src = prop_oneof![
             4 => (name_len().prop_map(|n| n.min(255)), 0u8..3).prop_map(|(n, k)| Source::Socks5Name(n, k)),
-            1 => any::<bool>().prop_map(Source::Socks5Ip),
+            2 => any::<bool>().prop_map(Source::Socks5Ip),
             3 => (name_len(), 0u8..2).prop_map(|(n, k)| Source::HttpConnect(n, k)),
             3 => (name_len(), 0u8..2, any::<bool>()).prop_map(|(n, k, p)| Source::HttpAbsolute(n, k, p)),
             2 => (name_len().prop_map(|n| n.min(255)), 0u8..3).prop_map(|(n, k)| Source::Socks5Udp(n, k)),
@@ -214,7 +214,7 @@ impl SubCheck for AcceptedTransmission {
                 (*n, catch(|| Socks5CommandRequestDecoder.decode(&mut buf).ok().flatten().map(|r| r.dst_addr)))
             }
             Source::Socks5Ip(v6) => {
-                let a = if *v6 { Addr::V6(gen::Det::new(c.seed, "ip").arr(), c.port) } else { Addr::V4(gen::Det::new(c.seed, "ip").arr(), c.port) };
+                let a = if *v6 { Addr::V6(gen::v6_from(c.seed), c.port) } else { Addr::V4(gen::v4_from(c.seed), c.port) };
                 let wire = socks5::request(1, &a);
                 let mut buf = BytesMut::from(&wire[..]);
                 (0, catch(|| Socks5CommandRequestDecoder.decode(&mut buf).ok().flatten().map(|r| r.dst_addr)))
@@ -286,6 +286,12 @@ impl SubCheck for AcceptedTransmission {
                     format!("the local handshake accepted a target name of {} bytes ({:?}); neither address encoding can represent it, it must be refused before anything is sent", n.len(), c.source),
                 );
                 return out;
+            }
+        }
+        if let (Source::Socks5Ip(true), Addr::V6(a, _)) = (&c.source, &want) {
+            if a[..10] == [0u8; 10] {
+                out.label("ipv6-with-zero-upper-bits");
+                out.nontrivial(format!("accepted|v6-special|{}", c.seed % 12));
             }
         }
         if !matches!(c.source, Source::Socks5Ip(..)) {
